@@ -10,11 +10,14 @@ spec -> impl: every counterexample and a simulated sample of complete behaviours
 SCHEDULE that the harness forces on the real DebuggerContext through the observation points of hook H4
 (one process per behaviour): each step releases exactly the named thread at the named point; the real
 threads must stand where the model says, received events must be the model's, leftover channel
-contents must match, and a stuck end must really leave run() blocked."""
+contents must match, and a stuck end must really leave run() blocked.
+The parse itself: "the breakpoint hits of the parse" are its rule entries; the sequence a listener on the real VM is
+told about is validated against the entry log of the TLA+ semantics (Trace_Entries) on enumerated and random grammars."""
 import json
 import os
 import re
 from vlib import *
+from pegrun import *
 
 _RE = re.compile(r'<<"(CEX|BEH)", "(\w+)", (".*")>>\s*$')
 
@@ -81,7 +84,7 @@ def run(ctx):
                 raise ToolError("MC_Debugger restart: %s" % r.violated)
             for (name, d) in cex[:2]:
                 confirmed_known += _confirm(ctx, vd, cap, name, d)
-    # ---- behaviours for conformance
+    # ---- behaviours for conformance: random scripts (simulation), then directed scripts (every interleaving)
     nb = 0
     hits = 0
     for cap in (1, 2):
@@ -91,47 +94,156 @@ def run(ctx):
                     env={"ENTRIES": ents}, simulate="num=%d" % (250 if quick else 4000), extra=["-depth", "150"], seed=ctx.seed)
         finally:
             os.remove(os.path.join(SPEC, "MC_Debugger_sim_run.cfg"))
-        behs = _dumps(r.out, "BEH")
-        seen = set()
-        bf = os.path.join(ctx.work, "behs%d.ndjson" % cap)
-        with open(bf, "w") as f:
-            for (name, d) in behs:
-                key = json.dumps(d["hist"])
-                if key in seen:
-                    continue
-                seen.add(key)
-                f.write(json.dumps(d) + "\n")
-        out = os.path.join(ctx.work, "behrep%d.ndjson" % cap)
-        s = run_json([vd, "replay", "--cap", str(cap), "--behaviours", bf, "--out", out], timeout=6000)
-        nb += s["behaviours"]
-        for rec in read_ndjson(out):
-            b = rec["behaviour"]
-            if any(h["act"] == "Send" for h in b["hist"]):
-                hits += 1
-            v = rec["verdict"]
-            if v["ok"] is not True:
-                ctx.violation({"kind": "replay", "spec": "Debugger", "capacity": cap, "schedule": _fmt(b["hist"]), "behaviour": b, "problem": v["problem"]})
-            elif b["expect_stuck"]:
-                d = {"kind": "replay", "spec": "Debugger (restart terminates)", "capacity": cap, "schedule": _fmt(b["hist"]), "behaviour": b,
-                     "stuck_confirmed_on_real_code": v["stuck_confirmed"],
-                     "cause": "restart joins while the previous thread is blocked sending into a full channel" if b.get("blocked_sending") else "other"}
-                if v["stuck_confirmed"]:
-                    # only a violation of the property when the controller had seen an empty channel at RunLoad
-                    if _empty_at_runload(b):
-                        ctx.violation(d)
-                else:
-                    ctx.violation(dict(d, kind="replay", problem="the model ends stuck but the real run() returned"))
-        if len(ctx.cov["samples"]) < 2:
-            x = read_ndjson(out, 40)[-1]
-            ctx.sample({"kind": "schedule generated by TLC, forced on the real debugger", "capacity": cap, "schedule": _fmt(x["behaviour"]["hist"]),
-                        "verdict": x["verdict"]})
-    ctx.cov["traces_validated_against_impl"] = nb
-    ctx.cov["evaluations"] = nb
+        (a, b) = _replay_behs(ctx, vd, cap, _dumps(r.out, "BEH"), "sim", 10 ** 9)
+        nb += a
+        hits += b
+    nscripts = 0
+    for (si, script) in enumerate(SCRIPTS):
+        for cap in (1, 2):
+            sf = os.path.join(ctx.work, "entries_script.ndjson")
+            open(sf, "w").write(json.dumps(dict(e, script=[{"c": c.split(":")[0], "r": (c.split(":") + [""])[1]} for c in script])) + "\n")
+            name = "MC_Debugger_scr_run.cfg"
+            with open(os.path.join(SPEC, name), "w") as f:
+                f.write("SPECIFICATION Spec\nCONSTANTS\n  Entries <- EntriesDef\n  Final <- FinalDef\n  BpRules <- BpRulesDef\n"
+                        "  Cap = %d\n  MaxCmds = %d\n  MaxRuns = %d\nCONSTRAINT FollowsScript\nINVARIANTS EmitScripted EmitStuck InvOnePerContinue InvNothingWhileWaiting\nCHECK_DEADLOCK FALSE\n"
+                        % (cap, len(script), max(1, sum(1 for c in script if c == "run"))))
+            try:
+                # simulation: random interleavings of the fixed script (the constraint keeps the controller on it)
+                r = tlc("MC_Debugger", cfg=name, workdir=ctx.work, outname="dbg_scr%d_%d.out" % (si, cap), workers=1, timeout=600, xmx="4g", env={"ENTRIES": sf},
+                        simulate="num=%d" % (40 if quick else 400), extra=["-depth", "200"], seed=ctx.seed + si)
+            finally:
+                os.remove(os.path.join(SPEC, name))
+            ctx.add_tlc("MC_Debugger script %d (Cap=%d): %s" % (si, cap, " ".join(script)), r, "random interleavings of one controller script")
+            behs = _dumps(r.out, "BEH")
+            if not r.ok and not behs:
+                raise ToolError("MC_Debugger script %d: %s" % (si, r.violated))
+            (a, b) = _replay_behs(ctx, vd, cap, behs, "scr%d" % si, 12 if quick else 60)
+            nb += a
+            hits += b
+            nscripts += 1
+    ne = _entries(ctx, quick)
+    ctx.cov["traces_validated_against_impl"] = nb + ne
+    ctx.cov["evaluations"] = nb + ne
     ctx.cov["distinct_nontrivial"] = hits
     ctx.cov["engines"].append({"name": "vdbg schedule replay", "role": "behaviours of Debugger.tla forced on the real DebuggerContext through hook H4", "schedules": nb})
     ctx.assumptions += ["thread::park has no spurious wake-ups (true of this toolchain's futex implementation; the documentation allows them)",
                         "each run gets its own channel; the grammar is fixed (top = _{ a ~ b ~ a ~ b? } on \"xyx\"), the protocol does not depend on it",
                         "an enabled step that does not happen within 5 s is a mismatch; a stuck end is confirmed when run() has not returned after 2 s of free running"]
+
+
+# directed controller scripts (entries of the fixed parse: a@0 b@1 a@2 b@3)
+SCRIPTS = [
+    ["add:a", "run", "recv", "cont", "recv", "cont", "cont", "recv", "run", "recv"],     # a continue after the last breakpoint, then a restart
+    ["add:b", "run", "recv", "cont", "recv", "cont", "cont", "run", "recv", "cont", "recv"],
+    ["add:a", "run", "recv", "del:a", "cont", "recv"],                                    # breakpoint deleted while the parser waits
+    ["add:a", "run", "recv", "add:b", "cont", "recv", "cont", "recv"],                    # breakpoint added while the parser waits
+    ["add:a", "add:b", "run", "recv", "delall", "cont", "recv", "add:b", "run", "recv"],  # delete all, then a new set and a restart
+    ["cont", "add:a", "run", "run", "recv", "cont", "recv"],                              # continue before any run; restart at once
+    ["add:a", "run", "cont", "cont", "recv", "recv", "cont", "recv"],                     # continues issued ahead of the receives
+]
+
+
+def _replay_behs(ctx, vd, cap, behs, tag, limit):
+    """Forces behaviours (deduplicated, at most `limit`, spread evenly) on the real debugger; returns (replayed, with a hit)."""
+    seen = set()
+    uniq = []
+    for (name, d) in behs:
+        key = json.dumps(d["hist"])
+        if key not in seen:
+            seen.add(key)
+            uniq.append(d)
+    if len(uniq) > limit:
+        step = len(uniq) / float(limit)
+        uniq = [uniq[int(i * step)] for i in range(limit)]
+    bf = os.path.join(ctx.work, "behs_%s_%d.ndjson" % (tag, cap))
+    with open(bf, "w") as f:
+        for d in uniq:
+            f.write(json.dumps(d) + "\n")
+    if not uniq:
+        return (0, 0)
+    out = os.path.join(ctx.work, "behrep_%s_%d.ndjson" % (tag, cap))
+    s = run_json([vd, "replay", "--cap", str(cap), "--behaviours", bf, "--out", out], timeout=6000)
+    hits = 0
+    for rec in read_ndjson(out):
+        b = rec["behaviour"]
+        if any(h["act"] == "Send" for h in b["hist"]):
+            hits += 1
+        v = rec["verdict"]
+        if v["ok"] is not True:
+            ctx.violation({"kind": "replay", "spec": "Debugger", "capacity": cap, "schedule": _fmt(b["hist"]), "behaviour": b, "problem": v["problem"]})
+        elif b["expect_stuck"]:
+            d = {"kind": "replay", "spec": "Debugger (restart terminates)", "capacity": cap, "schedule": _fmt(b["hist"]), "behaviour": b,
+                 "stuck_confirmed_on_real_code": v["stuck_confirmed"],
+                 "cause": "restart joins while the previous thread is blocked sending into a full channel" if b.get("blocked_sending") else "other"}
+            if v["stuck_confirmed"]:
+                # only a violation of the property when the controller had seen an empty channel at RunLoad
+                if _empty_at_runload(b):
+                    ctx.violation(d)
+            else:
+                ctx.violation(dict(d, kind="replay", problem="the model ends stuck but the real run() returned"))
+    if len(ctx.cov["samples"]) < 2:
+        x = read_ndjson(out, 40)[-1]
+        ctx.sample({"kind": "schedule generated by TLC, forced on the real debugger", "capacity": cap, "schedule": _fmt(x["behaviour"]["hist"]),
+                    "verdict": x["verdict"]})
+    return (s["behaviours"], hits)
+
+
+def _entries(ctx, quick):
+    """The parse itself: the (rule, position) sequence a listener on the real VM is told about must be the entry
+    log of the TLA+ semantics over the optimized rules (Trace_Entries) - user rules, built-ins and the implicit
+    WHITESPACE / COMMENT calls, failed branches included."""
+    vh = cargo_build()
+    batches = []
+    tot = {"grammars": 0, "cases": 0, "entries": 0, "dropped": 0}
+    for (name, shards, size, length) in ([("ws", 2, 2, 3), ("core", 2, 3, 3), ("wsov", 1, 2, 3)] if quick else
+                                          [("ws", 8, 3, 3), ("core", 8, 4, 3), ("wsov", 4, 3, 4), ("builtin", 4, 3, 3), ("stack", 4, 3, 3)]):
+        cases, rs, n = gen_slice(ctx, name, shards, size, length, jobs=12)
+        for r in rs:
+            ctx.cov["states"] += r.distinct
+            ctx.cov["transitions"] += r.generated
+        out = os.path.join(ctx.work, "ent_%s.ndjson" % name)
+        s = run_json([vh, "entries-emit", "--cases", cases, "--out", out], timeout=6000)
+        os.remove(cases)
+        for k in tot:
+            tot[k] += s[k]
+        batches.append(out)
+    for i in range(2 if quick else 12):
+        out = os.path.join(ctx.work, "ent_rand_%d.ndjson" % i)
+        s = run_json([vh, "entries-emit", "--seed", str(ctx.seed * 100 + i), "--grammars", "200" if quick else "500", "--out", out], timeout=6000)
+        for k in tot:
+            tot[k] += s[k]
+        batches.append(out)
+    parts = []
+    for b in batches:
+        lines = open(b).read().splitlines()
+        os.remove(b)
+        for j in range(6):
+            sub = lines[j::6]
+            if sub:
+                pf = "%s.%d" % (b, j)
+                open(pf, "w").write("\n".join(sub) + "\n")
+                parts.append(pf)
+    res = validate_batches(ctx, "Trace_Entries", parts, jobs=12, timeout=6000)
+    skipped = 0
+    for (path, r, rej, sk) in res:
+        ctx.cov["states"] += r.distinct
+        ctx.cov["transitions"] += r.generated
+        skipped += sk
+        recs = None
+        seen = {}
+        for (kind, gid, obj) in rej:
+            if recs is None:
+                recs = {x["id"]: x for x in read_ndjson(path)}
+            seen[gid] = seen.get(gid, 0) + 1
+            if seen[gid] > 1:
+                continue
+            ctx.violation({"kind": "trace", "spec": "Trace_Entries/PegSemantics", "grammar": recs[gid]["text"], "start": obj.get("start"),
+                           "inp": obj.get("inp"), "input": "".join(chr(c) for c in obj.get("inp", [])),
+                           "entries_of_the_semantics": obj.get("expected"), "entries_told_to_the_listener": obj.get("got")})
+        os.remove(path)
+    ctx.cov["engines"].append({"name": "Trace_Entries", "role": "rule entries told to a VM listener = entry log of the semantics over the optimized rules",
+                               **tot, "not_compared_divergent_or_fuel": skipped})
+    return tot["cases"] - skipped
 
 
 def _empty_at_runload(b):
